@@ -7,7 +7,7 @@
    width / length-form choice explicit, ser, decoder spec_dec), C10.CborConv (go_of: the Go
    value carrying given data; lib_supports: documented limits; tdepth; tree_of). *)
 From Coq Require Import List NArith ZArith Lia Bool.
-From Verif Require Import Base.Outcome Wire.Item Gen.Consts Wire.CborFloat Wire.Cbor C10.CborSpec C10.CborConv Wire.CborProofs Wire.CborDepth.
+From Verif Require Import Base.Outcome Wire.Item Gen.Consts Wire.CborFloat Wire.Cbor C10.CborSpec C10.CborConv Wire.CborProofs Wire.CborDepth Wire.CborTotal.
 Import ListNotations.
 Open Scope N_scope.
 
@@ -90,6 +90,31 @@ Theorem Wcbor_skip_maxrec : forall (D : dopts) (f : nat) (d : Z) (b : list N),
   (0 <= d)%Z -> (skip_maxrec D f d b <= Z.to_nat (maxdepth D - 1))%nat.
 Proof. exact skip_maxrec_lemma. Qed.
 Print Assumptions Wcbor_skip_maxrec.
+
+(* TOTALITY (C02 for cbor, on the model): for EVERY byte list and every option vector, decoding into
+   interface{} and skipping terminate within fuel 2 * length b + 2 (work linear in the input): the
+   result is never OutOfFuel.  (False before the F02-1 repair: the skip cursor could move backwards.) *)
+Theorem Wcbor_dec_total : forall (D : dopts) (b : list N), dec_naked D (fuel_for b) b <> OutOfFuel.
+Proof. exact dec_total_lemma. Qed.
+Print Assumptions Wcbor_dec_total.
+
+Theorem Wcbor_skip_total : forall (D : dopts) (d : Z) (b : list N), skip D (fuel_for b) d b <> OutOfFuel.
+Proof. exact skip_total_lemma. Qed.
+Print Assumptions Wcbor_skip_total.
+
+(* PROGRESS: a successful decode / skip (any fuel) consumed at least one byte and returns a suffix of
+   its input *)
+Theorem Wcbor_dec_progress : forall (D : dopts) (f : nat) (b : list N) (i : item) (rest : list N),
+  dec_naked D f b = Ok (i, rest) ->
+  exists consumed, b = consumed ++ rest /\ (1 <= length consumed)%nat.
+Proof. exact dec_progress_lemma. Qed.
+Print Assumptions Wcbor_dec_progress.
+
+Theorem Wcbor_skip_progress : forall (D : dopts) (f : nat) (d : Z) (b rest : list N),
+  skip D f d b = Ok rest ->
+  exists consumed, b = consumed ++ rest /\ (1 <= length consumed)%nat.
+Proof. exact skip_progress_lemma. Qed.
+Print Assumptions Wcbor_skip_progress.
 
 (* all 65536 half-precision floats: the code's halfFloatToFloatBits (hand-modelled, tied by the
    leaf stream on all 65536 inputs) equals the RFC 8949 Appendix D value; exhaustive (two nested
